@@ -116,6 +116,29 @@ DynCase gen_dyn_case(Rng &r, bool thorough) {
     return dc;
 }
 
+/// Bounded-exhaustive histories: two initial states (empty / bulk-load of 6 keys) x every sequence of 1..5 operations
+/// drawn from {insert_or_assign, erase} x 5 keys (two present in the bulk load, three not), on the smallest geometry
+/// (base 2, buffer_level 1 => buffer of 3, index_level 2 => every deeper level owns a PGM-index).
+constexpr uint64_t kDynEnumPerState = 10 + 100 + 1000 + 10000 + 100000;
+inline bool gen_dyn_enum_case(uint64_t idx, DynCase &dc, uint64_t kbase) {
+    if (idx >= 2 * kDynEnumPerState) return false;
+    dc.base = 2; dc.bl = 1; dc.il = 2;
+    dc.family = "enum_histories";
+    bool bulk = idx >= kDynEnumPerState;
+    uint64_t r = idx % kDynEnumPerState;
+    if (bulk)
+        for (uint64_t k = 10; k <= 60; k += 10) dc.bulk.emplace_back(kbase + k, k);
+    unsigned L = 1;
+    for (uint64_t c = 10; r >= c; c *= 10) { r -= c; ++L; }
+    static const uint64_t keys[5] = {20, 25, 30, 35, 65};
+    for (unsigned i = 0; i < L; ++i) {
+        unsigned d = unsigned(r % 10);
+        r /= 10;
+        dc.ops.push_back({d < 5 ? 'I' : 'E', kbase + keys[d % 5], 100 + i});
+    }
+    return true;
+}
+
 inline Spec dyn_spec(const Ctx &c, const DynCase &dc) {
     Spec s;
     s.set_one("config", c.cfg.name);
@@ -222,12 +245,18 @@ std::string check_invariants(const Dyn &x, InvStats &st) {
     return "";
 }
 
-template<class K, class V, class PGMType>
+template<class K, class V, class PGMType, bool Enum = false>
 void dyn_case(Ctx &c) {
     using Dyn = pgm::DynamicPGMIndex<K, V, PGMType>;
     using D = UDom<K>;
     using A = pgm_verif::DynamicAccess;
-    DynCase dc = c.given ? dyn_from_spec(*c.given) : gen_dyn_case<K>(c.rng, c.thorough());
+    DynCase dc;
+    if (c.given) dc = dyn_from_spec(*c.given);
+    else if (Enum) {
+        if (!gen_dyn_enum_case(c.case_idx, dc, (c.case_idx / 7) % 2 ? D::R - 100 : 0)) { c.count("enum_cases_past_the_end"); return; }
+        c.count("enum_cases");
+        c.maxc("enum_space_per_configuration", 2 * kDynEnumPerState);
+    } else dc = gen_dyn_case<K>(c.rng, c.thorough());
     c.dumper = [&]() { return dyn_spec(c, dc); };
     c.traits = dc.family + ",base=" + std::to_string(dc.base) + ",bl=" + std::to_string(dc.bl) + ",il=" + std::to_string(dc.il);
     Hasher h;
@@ -410,8 +439,8 @@ void dyn_case(Ctx &c) {
         }
         prev_sizes.swap(sizes);
         if (c15) state_check((long long) o);
-        bool obs = c.thorough() ? (o < 500 || o % 5 == 0) : (o < 40 || o % 7 == 0);
-        if (obs || o + 1 == nops) observe((long long) o, o + 1 == nops, k);
+        bool obs = Enum || (c.thorough() ? (o < 500 || o % 5 == 0) : (o < 40 || o % 7 == 0));
+        if (obs || o + 1 == nops) observe((long long) o, Enum || o + 1 == nops, k);
     }
     c.count("operations", nops);
     c.count("find_calls", n_find);
@@ -440,5 +469,7 @@ void dyn_case(Ctx &c) {
 
 #define VF_DYN(NAME, K, V, ...)                                                                                        \
     VF_REGISTER(std::string("dyn/") + NAME, (&::vf::dyn_case<K, V, __VA_ARGS__>), 1.0)
+#define VF_DYN_ENUM(NAME, K, V, ...)                                                                                   \
+    VF_REGISTER(std::string("dyn/") + NAME + "#enum", (&::vf::dyn_case<K, V, __VA_ARGS__, true>), 112.0)
 
 } // namespace vf
